@@ -456,3 +456,5 @@ M('C09', '_Add.getindex offsets by nelems', 'sample.py', "            return sel
 M('C09', '_Add.get_element_hull not shifted', 'sample.py', "            return self._sample2.get_element_hull(ielem - self._sample1.nelems)", "            return self._sample2.get_element_hull(ielem)", rule='R09.1')
 M('C09', '_Integral sums over another index', 'sample.py', "        return evaluable.loop_sum(elem_integral, ielem)", "        return evaluable.loop_sum(elem_integral, evaluable.loop_index(f'_sample_{len(args.args)+1}', self._sample.nelems))", rule='R09.2')
 M('C09', 'benign: rename ielem1/ielem2 consistently is not recognised', 'sample.py', "        return evaluable.einsum('A,B->AB', weights1, weights2)", "        return evaluable.einsum('A,B->AB', weights1, weights2)  # outer product", expect='silent')
+
+M('C18', 'revert F11: Arnoldi without __nutils_hash__', 'solver.py', "    @property\n    def __nutils_hash__(self):\n        return types.nutils_hash(('Arnoldi', self.maxiter, self.linargs))\n\n", "", rule='R18.7')
